@@ -1511,3 +1511,51 @@ def dowhile_to_while(x, ctr=None):
     if x[0] == 'do':
         return conv(x, None)
     return tuple(dowhile_to_while(z, ctr) if isinstance(z, (tuple, list, dict)) else z for z in x)
+
+
+def unwrap_jump_blocks(x):
+    """{ break; } / { continue; }  ==>  break; / continue;   (a block that is only a jump declares nothing)."""
+    if isinstance(x, list):
+        return [unwrap_jump_blocks(y) for y in x]
+    if isinstance(x, dict):
+        return {k: unwrap_jump_blocks(v) if k in ('body', 'params') else v for k, v in x.items()}
+    if not isinstance(x, tuple) or not x:
+        return x
+    y = tuple(unwrap_jump_blocks(z) if isinstance(z, (tuple, list, dict)) else z for z in x)
+    if y[0] == 'block' and len(y[1]) == 1 and y[1][0][0] in ('break', 'continue'):
+        return y[1][0]
+    return y
+
+
+def const_assign_reads_first(prog):
+    """(c = e)  ==>  (c = (e, c))  for names that are only ever declared `const`: an assignment to a constant always
+    throws (TypeError if initialised, ReferenceError in the TDZ) after evaluating e, so reading c in between keeps
+    the semantics and makes the TDZ check explicit."""
+    decl = {}
+
+    def collect(x):
+        if isinstance(x, tuple):
+            if x and x[0] == 'decl':
+                for d in x[2]:
+                    decl.setdefault(d[1], set()).add(x[1])
+            if x and x[0] == 'fdecl':
+                decl.setdefault(x[1], set()).add('function')
+            for z in x: collect(z)
+        elif isinstance(x, list):
+            for z in x: collect(z)
+        elif isinstance(x, dict):
+            for (n, _) in x.get('params', []): decl.setdefault(n, set()).add('param')
+            if x.get('rest'): decl.setdefault(x['rest'], set()).add('param')
+            for z in x.values(): collect(z)
+    collect(prog)
+    consts = {n for n, k in decl.items() if k == {'const'}}
+
+    def go(x):
+        if isinstance(x, list): return [go(y) for y in x]
+        if isinstance(x, dict): return {k: go(v) if k in ('body', 'params') else v for k, v in x.items()}
+        if not isinstance(x, tuple) or not x: return x
+        y = tuple(go(z) if isinstance(z, (tuple, list, dict)) else z for z in x)
+        if y[0] == 'assign' and y[1] in consts:
+            return ('assign', y[1], ('comma', y[2], ('var', y[1])))
+        return y
+    return go(prog)
